@@ -500,6 +500,7 @@ fn body(c: &mut C, thorough: bool) -> Result<(), Violation> {
     let mut extra_queries = c.tape.draw(3);
     let mut steps = 0;
     let mut idle = 0u32;
+    let mut stuck = 0u32;
     loop {
         steps += 1;
         if steps > 600 {
@@ -533,6 +534,18 @@ fn body(c: &mut C, thorough: bool) -> Result<(), Violation> {
                 break;
             }
         };
+        // C19: polled according to poll_at, a pending query must make progress: a deadline that stays in the past
+        // while nothing is sent or received starves the query (time cannot advance in such an event loop)
+        if c.props.has("C19") && !c.props.has("C13") {
+            if next <= c.now && c.stats.get("frames.tx") == tx_before_poll {
+                stuck += 1;
+                if stuck >= 50 {
+                    return Err(viol("C19", "termination", "C19.termination/deadline-stays-in-the-past-without-progress", format!("{} consecutive polls at t={} us sent and received nothing while poll_at keeps returning {:?}; pending queries: {:?}", stuck, c.now, d, c.qs.iter().filter(|q| !q.done).map(|q| (q.name.clone(), q.tx_count)).collect::<Vec<_>>())));
+                }
+            } else {
+                stuck = 0;
+            }
+        }
         // C13: an extra poll strictly before that instant (no datagram delivered, no socket call) transmits
         // nothing; a poll that moved nothing is followed by a later deadline
         if c.props.has("C13") {
